@@ -54,27 +54,54 @@ class Taint:
         self.summarise()
 
     def tainted_fields(self):
-        """(adt, field name) filled from a wire integer in a function that calls a LEB parser"""
+        """(adt, field name) of integer fields filled from a wire number: an integer read by the LEB parsers, a value yielded by a
+        column decoder, or (fixpoint) another such field. Only aggregates of automerge's own types are considered."""
         f = self.f
         out = {}
+        bodies = {}
+        intty = re.compile(r"^(u8|u16|u32|u64|usize|i32|i64|core::num::nonzero::NonZero<u64>|core::num::nonzero::NonZero<usize>)$")
+        cands = []
         for p, r in f.fns.items():
             if r["ckey"] != ("automerge", "lib"):
                 continue
-            if not any(SRC_CALL.match(norm_fn(t.get("fn")) or "") for _, t in f.calls(r)):
-                continue
-            b = cfg.body(r)
-            for blk in b.blocks:
-                for st in blk["st"]:
+            for bi, blk in enumerate(r["blocks"]):
+                for si, st in enumerate(blk["st"]):
                     rv = st["rv"]
                     if rv["k"] == "Agg" and rv.get("ak") == "adt" and rv["adt"].startswith("automerge::"):
                         a = f.adts.get(rv["adt"])
                         var = [v for v in (a or {}).get("variants", []) if v["name"] == rv["variant"]]
-                        for i, o in enumerate(rv.get("o", [])):
-                            pv = b.provenance(o, through_calls=True, stop=stop)
-                            if any(SRC_CALL.match(norm_fn(c)) for c in pv.callees()) and var and i < len(var[0]["fields"]):
-                                fld = var[0]["fields"][i]
-                                if re.match(r"^(u8|u16|u32|u64|usize|i32|i64|core::num::nonzero::NonZero<u64>)$", fld["ty"]):
-                                    out[(rv["adt"], fld["name"])] = norm_fn(p)
+                        if var and any(intty.match(fl["ty"]) for fl in var[0]["fields"]):
+                            cands.append((p, rv, var[0]))
+        for rounds in range(4):
+            changed = False
+            for p, rv, var in cands:
+                b = bodies.get(p)
+                if b is None:
+                    b = bodies[p] = cfg.body(f.fns[p])
+                for i, o in enumerate(rv.get("o", [])):
+                    if i >= len(var["fields"]) or not intty.match(var["fields"][i]["ty"]):
+                        continue
+                    key = (rv["adt"], var["fields"][i]["name"])
+                    if key in out or util.op_const(o) is not None:
+                        continue
+                    pv = b.provenance(o, through_calls=True, stop=stop)
+                    hit = None
+                    for c, cb in pv.calls | pv.decls:
+                        if SRC_CALL.match(norm_fn(c) or ""):
+                            hit = "parsed by %s" % norm_fn(c).split("::")[-1]
+                        elif decoder_next(b, b.blocks[cb]["t"]):
+                            hit = "yielded by a column decoder"
+                    if hit is None:
+                        for l, pr in pv.places:
+                            ty = util.base_ty(util.strip_refs(b.local_ty(l)))
+                            flds = [e[1:] for e in pr if e.startswith(".")]
+                            if flds and (ty, flds[0]) in out:
+                                hit = "copied from %s.%s" % (ty.split("::")[-1], flds[0])
+                    if hit:
+                        out[key] = "%s (%s)" % (norm_fn(p), hit)
+                        changed = True
+            if not changed:
+                break
         return out
 
     def sources(self, b, op):
